@@ -1313,8 +1313,11 @@ def verify(contract: dict, all_contracts: dict | None = None, ms: int = 10_000, 
             verdict, m, dt, be = ("undecided", None, 0.0, "z3")
             if len(lean) != len(hyps):
                 verdict, m, dt, be = prove(lean + spec_axioms(lean + [vc.goal]), vc.goal, min(ms, 1500), use_cvc5=False)
-            if verdict != "proved":
-                v2, m, dt2, be = prove(hyps + ax, vc.goal, ms)
+            # portfolio: the nonlinear / quantified queries are seed-sensitive in z3; three short attempts then cvc5
+            for k, sd in enumerate((7, 1, 3)):
+                if verdict in ("proved", "refuted"):
+                    break
+                v2, m, dt2, be = prove(hyps + ax, vc.goal, max(ms // 3, 2000), use_cvc5=(k == 2), seed=sd)
                 verdict, dt = v2, dt + dt2
         if vc.kind == "reach":
             # proved False => vacuous path: report as undecided (never a pass); anything else is the expected outcome
@@ -1322,3 +1325,13 @@ def verify(contract: dict, all_contracts: dict | None = None, ms: int = 10_000, 
             m = None
         vc.status, vc.secs, vc.backend, vc.model = verdict, dt, be, m
     return dict(vcs=vcs, dropped=sorted(ex.dropped), error=None, sha=sha, file=file, secs=time.time() - t0, executor=ex)
+
+
+def verify_plain(arg):
+    """picklable wrapper for worker processes: (contract name, ms) -> plain dict (no z3 objects)"""
+    name, ms = arg
+    from contracts.wpc import W
+    r = verify(W[name], W, ms)
+    return dict(name=name, error=r["error"], dropped=r["dropped"], sha=r.get("sha"), file=r.get("file"), secs=r.get("secs"),
+                vcs=[dict(oid=v.oid, kind=v.kind, status=v.status, secs=v.secs, backend=v.backend, note=v.note, path=v.path,
+                          model=str(v.model)[:2000] if v.model is not None else None) for v in r["vcs"]])
